@@ -32,14 +32,19 @@ func init() {
 }
 
 type c05Spec struct {
-	RootLoad int    `json:"root_load"` // index into c05Loads (0 = none)
-	AaLoad   int    `json:"aa_load"`
-	BbLoad   int    `json:"bb_load"`
-	CcLoad   int    `json:"cc_load"`
-	Reload   int    `json:"reload"`           // 0 none, 1 aa:RELOAD s, 2 bb:RELOAD s, 3 bb:RELOAD t, 4 root:RELOAD s
-	RelLate  bool   `json:"reload_after_map"` // RELOAD placed after the MAP lines of its node (same page) instead of before them
-	Mode     string `json:"mode"`
-	CacheSz  uint32 `json:"cache_size"`
+	RootLoad int  `json:"root_load"` // index into c05Loads (0 = none)
+	AaLoad   int  `json:"aa_load"`
+	BbLoad   int  `json:"bb_load"`
+	CcLoad   int  `json:"cc_load"`
+	Reload   int  `json:"reload"`           // 0 none, 1 aa:RELOAD s, 2 bb:RELOAD s, 3 bb:RELOAD t, 4 root:RELOAD s
+	RelLate  bool `json:"reload_after_map"` // RELOAD placed after the MAP lines of its node (same page) instead of before them
+	// Leak: node bb does not MAP the symbols it inherits from its ancestors although its template mentions
+	// them, and the session runs under an output size: the page must fail (a value is exposed to the
+	// template only until the next move), not show a value mapped on an earlier node.
+	Leak    bool   `json:"template_mentions_unmapped_symbol"`
+	OutSz   uint32 `json:"output_size"`
+	Mode    string `json:"mode"`
+	CacheSz uint32 `json:"cache_size"`
 }
 
 type c05Load struct {
@@ -123,7 +128,10 @@ func c05App(sp c05Spec) (*app.App, bool) {
 			return nil, false // two sinks on one page: not a well-formed page
 		}
 		for _, s := range order {
-			code = append(code, codec.Ins{Op: codec.MAP, Sym: s})
+			own := loads[n].Sym == s
+			if !(sp.Leak && n == "bb" && !own) {
+				code = append(code, codec.Ins{Op: codec.MAP, Sym: s})
+			}
 			tpl += " " + s + "={{." + s + "}}"
 		}
 		code = append(code, late...)
@@ -175,6 +183,16 @@ func c05Specs(thorough bool) []c05Spec {
 			}
 		}
 	}
+	// members whose deepest node mentions an inherited symbol without mapping it, under an output size
+	for _, sp := range []c05Spec{{RootLoad: 1, AaLoad: 0, BbLoad: 6, Leak: true, OutSz: 120}, {RootLoad: 1, AaLoad: 5, BbLoad: 3, Leak: true, OutSz: 120}, {RootLoad: 3, AaLoad: 5, BbLoad: 0, Leak: true, OutSz: 120}, {RootLoad: 1, AaLoad: 5, BbLoad: 4, Leak: true}} {
+		if _, ok := c05App(sp); !ok {
+			continue
+		}
+		for _, m := range modes {
+			sp.Mode = m
+			out = append(out, sp)
+		}
+	}
 	// cache-capacity variants on a few members
 	for _, sp := range []c05Spec{{RootLoad: 1, AaLoad: 5, BbLoad: 4, Reload: 2}, {RootLoad: 3, AaLoad: 5, BbLoad: 0, Reload: 1}} {
 		for _, m := range modes {
@@ -190,7 +208,7 @@ func c05Exec(sp c05Spec, depth int, x *mc.Chooser, c *mc.Ctx) (sig, msg string, 
 	a, _ := c05App(sp)
 	f := c05Func(x)
 	a.Func("ss", f).Func("tt", f)
-	cfg := engine.Config{CacheSize: sp.CacheSz}
+	cfg := engine.Config{CacheSize: sp.CacheSz, OutputSize: sp.OutSz}
 	s := newSess(a, sp.Mode, cfg)
 	rv := newRef(a, sp.Mode, cfg)
 	// both environments share the answer table so that the k-th call of a symbol gets the same answer
